@@ -57,6 +57,36 @@ def isSpace (c : Char) : Bool :=
 /-- `l.strip()` -/
 def strip (l : List Char) : List Char := ((l.dropWhile isSpace).reverse.dropWhile isSpace).reverse
 
+/-- `l[i]` for an int index: negative indices count from the end, out of range raises IndexError -/
+def index (l : List Char) (i : Int) : Except PyExc Char :=
+  let j := if i < 0 then i + l.length else i
+  if j < 0 then throw .indexError
+  else match l[j.toNat]? with
+    | some c => pure c
+    | none => throw .indexError
+
+/-- `re.compile("[cls]").search(l)`: `.start()` of the match = index of the first character of the class, `none` = no match -/
+def searchClass (cls l : List Char) : Option Int :=
+  (l.findIdx? fun c => cls.contains c).map fun i => (i : Int)
+
+#guard searchClass ":/#".toList "ab/c#".toList == some 2 && searchClass ":/#".toList "abc".toList == none
+
+/-- rounds `start, start+1, …` (`count` of them) of a loop body; `some r` = the body executed `return r` -/
+def forRangeFrom {α : Type} (f : Int → Except PyExc (Option α)) (start : Nat) : Nat → Except PyExc (Option α)
+  | 0 => pure none
+  | k + 1 => do
+    match ← f start with
+    | some r => pure (some r)
+    | none => forRangeFrom f (start + 1) k
+
+/-- `for i in range(n): body` where the body only tests and returns / raises -/
+def forRange {α : Type} (n : Int) (f : Int → Except PyExc (Option α)) : Except PyExc (Option α) :=
+  forRangeFrom f 0 n.toNat
+
+#guard (index "abc".toList 0).toOption == some 'a' && (index "abc".toList (-1)).toOption == some 'c'
+#guard (index "abc".toList 3).toOption == none && (index "abc".toList (-4)).toOption == none && (index [] 0).toOption == none
+#guard (forRange 3 (fun i => pure (if i == 1 then some i else none)) : Except PyExc (Option Int)).toOption == some (some 1)
+#guard (forRange (-2) (fun i => pure (some i)) : Except PyExc (Option Int)).toOption == some none
 #guard find "abcabc".toList "bc".toList == 1
 #guard find "abc".toList "x".toList == -1
 #guard find "abc".toList [] == 0
